@@ -109,6 +109,14 @@ class AV:
                 for k, v in other.fields.items():
                     f[k] = f[k].join(v) if k in f else v
                 return AV((), "record", fields=f, cls=self.cls, fn=self.fn | other.fn)
+            if self.kind == other.kind == "record" and self.cls is not None and other.cls is not None and self.fields is not None and other.fields is not None:
+                # one of several helper classes (strategy objects picked at run time): the fields of both, the classes remembered -
+                # a method call is analysed for every class the object may have
+                alts = frozenset(alts_of(self)) | frozenset(alts_of(other))
+                f = dict(self.fields)
+                for k, v in other.fields.items():
+                    f[k] = f[k].join(v) if k in f else v
+                return AV((), "record", fields=f, cls=(self.cls[0], "|".join(sorted(a[1] for a in alts)), alts), fn=self.fn | other.fn)
             return flatten_record(self).join(flatten_record(other))
         if self.kind == other.kind:
             k = self.kind
@@ -138,6 +146,19 @@ class AV:
 
 
 FRESH = AV()
+
+
+def alts_of(av):
+    """The helper classes a record value may be an instance of: [(file, class), ...]."""
+    if av.cls is None:
+        return []
+    if len(av.cls) == 3:
+        return sorted(av.cls[2])
+    return [av.cls]
+
+
+def as_class(av, cls):
+    return av if av.cls == cls else AV(av.tags, av.kind, av.g, av.r, av.elems, av.fields, cls, fn=av.fn)
 
 
 def flatten_record(av, depth=0):
@@ -215,6 +236,14 @@ class Resolver:
         # module-level dispatch tables: NAME = {key: function, ...} / (f, g, ...) / [f, g]
         self.function_tables = {}
         self.tuple_classes = {}  # (file, NAME) -> [field names]   for NAME = namedtuple("NAME", ...)
+        # (file, NAME) -> value expression of the module-level `NAME = <expr>` / `NAME: T = <expr>` (tables of callables are read through AV.fn)
+        self.module_consts = {}
+        for rel_, tree_ in repo.tree.items():
+            for st_ in tree_.body:
+                if isinstance(st_, ast.Assign) and len(st_.targets) == 1 and isinstance(st_.targets[0], ast.Name):
+                    self.module_consts[(rel_, st_.targets[0].id)] = st_.value
+                elif isinstance(st_, ast.AnnAssign) and isinstance(st_.target, ast.Name) and st_.value is not None:
+                    self.module_consts[(rel_, st_.target.id)] = st_.value
         self.row_tables = {}  # (file, NAME) -> [row expression nodes]   for NAME = [(a, lambda ...: ..., "msg"), ...]
         self.accessors = {}  # (file, NAME) -> ('method' | 'attr', name)   for NAME = methodcaller("io") / attrgetter("x")
         for rel, tree in repo.tree.items():
@@ -385,6 +414,7 @@ class Analyzer:
         self.summ = {k: Summary(fi) for k, fi in repo.funcs.items()}
         self.observed_kinds = {}
         self.inferred_kinds = {}
+        self.module_const_fn = {}
         self.lambda_nodes = {}  # id(Lambda node) -> node                             } side tables of the callable descriptors
         self.partials = {}  # id(partial(...) call node) -> (callables, bound, keywords) } carried in AV.fn
         self.recmethods = {}  # id(Attribute node) -> (record value, method name)       }
@@ -548,11 +578,11 @@ class FuncAnalysis:
             if direct:
                 kw = {"g": cur.g, "r": cur.r, "elems": cur.elems}
                 kw[slot if slot in kw else "elems"] = kw[slot if slot in kw else "elems"] | carried
-                self.env[name] = AV(cur.tags, cur.kind, kw["g"], kw["r"], kw["elems"])
+                self.env[name] = AV(cur.tags, cur.kind, kw["g"], kw["r"], kw["elems"], cur.fields, cur.cls, fn=cur.fn)
             else:
                 # stored somewhere inside the object held by `name`
                 s2 = "r" if (isinstance(holder_node, ast.Attribute) and holder_node.attr == "blackboxes" and slot == "self_replace") else "elems"
-                self.env[name] = AV(cur.tags, cur.kind, cur.g, cur.r, cur.elems | carried)
+                self.env[name] = AV(cur.tags, cur.kind, cur.g, cur.r, cur.elems | carried, cur.fields, cur.cls, fn=cur.fn)
 
     def ev_quiet(self, node):
         saved_eff = len(self.s.effects)
@@ -691,7 +721,7 @@ class FuncAnalysis:
             # `x op= y` on a name aliasing a mutable part of a parameter is an in-place update
             inplace = AV({x for x in cur.tags if x[1] != "self"})
             self.effect(inplace, f"in-place operator {type(st.op).__name__}=", st)
-            self.env[t.id] = AV(cur.tags, cur.kind, cur.g, cur.r, cur.elems | flat(v))
+            self.env[t.id] = AV(cur.tags, cur.kind, cur.g, cur.r, cur.elems | flat(v), cur.fields, cur.cls, fn=cur.fn | v.fn)
         else:
             recv = self.ev(t.value)
             self.effect(recv, "augmented store", st)
@@ -917,6 +947,22 @@ class FuncAnalysis:
         t = self.an.res.resolve(self.rel, n.id, self.fi)
         if t and t[0] == "func" and (t[1], t[2]) in self.an.summ:
             return AV(fn={("func", t[1], t[2])})  # a repository function used as a value
+        mc = self.an.res.module_consts.get((self.rel, n.id))
+        if mc is not None and not getattr(self, "_in_module_const", 0) > 3:
+            # a module-level constant: only the callables it may hold matter here (a table of functions / lambdas / accessors)
+            key = (self.rel, n.id)
+            if key not in self.an.module_const_fn:
+                self._in_module_const = getattr(self, "_in_module_const", 0) + 1
+                saved_env, self.env = self.env, {}
+                try:
+                    self.an.module_const_fn[key] = self.ev_quiet(mc).fn
+                except Exception:
+                    self.an.module_const_fn[key] = frozenset()
+                finally:
+                    self.env = saved_env
+                    self._in_module_const -= 1
+            fn = self.an.module_const_fn[key]
+            return AV(fn=fn) if fn else FRESH
         return FRESH
 
     def ex_Attribute(self, n):
@@ -956,7 +1002,7 @@ class FuncAnalysis:
             for x in (n.slice.lower, n.slice.upper, n.slice.step):
                 if x is not None:
                     self.ev(x)
-            return AV(base.tags, base.kind, base.g, base.r, base.elems)
+            return AV(base.tags, base.kind, base.g, base.r, base.elems, base.fields, base.cls, fn=base.fn)
         self.ev(n.slice)
         tags = set(base.elems)
         kind = None
@@ -1079,6 +1125,16 @@ class FuncAnalysis:
             if target and target[0] == "class":
                 self.an.resolved_sites += 1
                 return self.construct(n, target, argav, kwav)
+            if isinstance(f.value, ast.Name) and f.value.id not in self.env and (self.rel, f.value.id) in self.repo.classes and f.value.id not in ("Circuit", "BlackBox"):
+                m = self.find_method(self.rel, f.value.id, f.attr)
+                if m is not None:
+                    decs = {ast.unparse(d).split(".")[-1].split("(")[0] for d in m.node.decorator_list}
+                    params = func_params(m.node)
+                    if "staticmethod" in decs or "classmethod" in decs:
+                        # `Helper.make(...)`: an alternative constructor / static helper of a class of the package, analysed inline
+                        self.an.resolved_sites += 1
+                        actual = self.bind_actuals(params if "staticmethod" in decs else params[1:], argav, kwav)
+                        return self.inline_call(m, actual, n)
             recv = self.ev(f.value)
             if recv.kind == "record":
                 return self.call_record_method(n, recv, f.attr, argav, kwav)
@@ -1155,13 +1211,13 @@ class FuncAnalysis:
                 self.an.resolved_sites += 1
                 return self.construct(n, target, argav, kwav)
             fav = self.env.get(f.id)
-            if fav is not None and fav.kind == "record" and fav.cls is not None and self.find_method(fav.cls[0], fav.cls[1], "__call__") is not None:
+            if fav is not None and fav.kind == "record" and fav.cls is not None and any(self.find_method(a_[0], a_[1], "__call__") is not None for a_ in alts_of(fav)):
                 return self.call_record_method(n, fav, "__call__", argav, kwav)  # an instance of a helper class that defines __call__
             if fav is not None and fav.fn:
                 return self.call_fn(n, fav.fn, argav, kwav)
             return self.call_unknown(n, f.id, argav, kwav)
         fav = self.ev(f)
-        if fav.kind == "record" and fav.cls is not None and self.find_method(fav.cls[0], fav.cls[1], "__call__") is not None:
+        if fav.kind == "record" and fav.cls is not None and any(self.find_method(a_[0], a_[1], "__call__") is not None for a_ in alts_of(fav)):
             return self.call_record_method(n, fav, "__call__", argav, kwav)
         if fav.fn:
             return self.call_fn(n, fav.fn, argav, kwav)
@@ -1296,6 +1352,14 @@ class FuncAnalysis:
         return rec
 
     def record_attr(self, base, attr, n):
+        if base.cls is not None and len(base.cls) == 3:
+            out = None
+            for alt in alts_of(base):
+                av = self.record_attr(as_class(base, alt), attr, n)
+                out = av if out is None else out.join(av)
+            return out if out is not None else FRESH
+        if base.fields is None:
+            return flatten_record(AV(base.tags, None, base.g, base.r, base.elems, fn=base.fn))
         if attr in base.fields:
             return base.fields[attr]
         if base.cls is not None:
@@ -1316,6 +1380,12 @@ class FuncAnalysis:
         return flatten_record(base)
 
     def call_record_method(self, n, recv, mname, argav, kwav):
+        if recv.cls is not None and len(recv.cls) == 3:
+            out = None
+            for alt in alts_of(recv):
+                av = self.call_record_method(n, as_class(recv, alt), mname, argav, kwav)
+                out = av if out is None else out.join(av)
+            return out if out is not None else FRESH
         if mname == "_replace":
             f = dict(recv.fields)
             for k, av in kwav.items():
@@ -1476,10 +1546,14 @@ class FuncAnalysis:
         return AV((), None, elems=out)
 
     def call_unknown(self, n, name, argav, kwav):
+        raw_first = argav[0] if argav else None
         argav = [flatten_record(a) for a in argav]
         kwav = {k: flatten_record(v) for k, v in kwav.items()}
         allargs = list(argav) + list(kwav.values())
         base = name.split(".")[-1] if name else name
+        if base in ("deepcopy", "copy") and raw_first is not None and raw_first.kind == "record" and raw_first.fields is not None:
+            # a copy of a helper object: a new object of the same class; a shallow copy holds the same field values
+            return AV((), "record", fields={k: (FRESH if base == "deepcopy" else v) for k, v in raw_first.fields.items()}, cls=raw_first.cls)
         if base == "deepcopy" and allargs:
             return AV((), allargs[0].kind)
         if name in ("copy.copy", "copy") and len(allargs) == 1 and base == "copy":
